@@ -132,6 +132,8 @@ type ghostRes struct {
 	afterFail atomic.Int32
 }
 
+var ghostGaveUp atomic.Bool
+
 var errGhostFlush = errors.New("verif: the connection of this session is gone")
 
 func (r *ghostRes) Header() http.Header { return r.hdr }
@@ -183,7 +185,7 @@ func runSPUBH(args []string) string {
 	// whose second flush fails: ServeHTTP returns for it, and it is not written to again, whatever else the server is doing
 	var ghost *ghostRes
 	ghostDone := make(chan struct{})
-	if (len(args[0])+len(args[1]))%2 == 0 {
+	if (len(args[0])+len(args[1]))%2 == 0 && !ghostGaveUp.Load() {
 		server.Logger = func(*http.Request) *slog.Logger { return slog.New(slog.NewTextHandler(io.Discard, nil)) }
 		ghost = &ghostRes{hdr: http.Header{}}
 		greq, _ := http.NewRequestWithContext(ctx, http.MethodGet, "http://verif.invalid/", http.NoBody)
@@ -206,7 +208,8 @@ func runSPUBH(args []string) string {
 		}
 		select {
 		case <-ghostDone:
-		case <-time.After(time.Second):
+		case <-time.After(10 * time.Second):
+			ghostGaveUp.Store(true) // (one such wait per process is enough to report it)
 			return "BAD:SERVE-DID-NOT-RETURN-AFTER-ITS-FLUSH-FAILED"
 		}
 		m := &sse.Message{}
